@@ -1291,6 +1291,228 @@ fn net_stream(rng: &mut Rng, rep: &mut Report, rounds: usize) {
     }
 }
 
+// ---------------------------------------------------------------------------------------------
+// pocketscion's third echo answering path: the `PsEchoResponder` component (comp/echo_responder.rs), registered as a
+// receiver for a listen prefix in every AS exactly like `PocketScionRuntime::start_echo_responder` does, reached through
+// the production pipeline (`PocketScionState::dispatch_to_network_sim`), its reply routed back to a recording receiver.
+
+/// forwards to the real responder and counts what reached it
+struct Tap<R: Receiver>(Arc<R>, Mutex<usize>, Mutex<Vec<u8>>);
+impl<R: Receiver> Receiver for Tap<R> {
+    fn receive_packet(&self, packet: &ScionRawPacketView) {
+        *self.1.lock().unwrap() += 1;
+        *self.2.lock().unwrap() = packet.as_slice().to_vec();
+        self.0.receive_packet(packet);
+    }
+}
+
+fn echoresp_stream(rng: &mut Rng, lean: &mut Lean, rep: &mut Report, rt: &tokio::runtime::Runtime, rounds: usize) {
+    use pocketscion::{comp::echo_responder::PsEchoResponder, state::PocketScionState};
+    use sciparse::core::convert::ToModel;
+    use sciparse::dataplane_path::view::ScionDpPathView;
+    let Ok(topo) = test_topology() else { return };
+    let now = chrono::Utc::now();
+    let registry = SegmentRegistry::from_topology(&topo);
+    let ases: Vec<IsdAsn> = ["1-1", "1-11", "1-21", "2-1", "1-2", "1-3", "1-4", "1-12", "2-2", "2-3", "2-21"].iter().map(|s| s.parse().unwrap()).collect();
+    let mut honest: Vec<(IsdAsn, IsdAsn, StandardPath)> = vec![];
+    for a in &ases {
+        for b in &ases {
+            if a != b {
+                if let Ok(Ok(ps)) = catch(|| registry.paths(*a, *b, now, &topo)) {
+                    for p in ps.into_iter().take(2) {
+                        if let ScionDpPathView::Standard(v) = p.dp_path() {
+                            honest.push((*a, *b, v.to_model()));
+                        }
+                    }
+                }
+            }
+        }
+    }
+    if honest.is_empty() {
+        return;
+    }
+    let mut state = PocketScionState::new(now);
+    state.set_topology(topo);
+    let src_rec = Arc::new(NetRecorder(Mutex::new(vec![])));
+    let responder = Arc::new(Tap(Arc::new(PsEchoResponder::new(state.clone())), Mutex::new(0), Mutex::new(vec![])));
+    for a in &ases {
+        state.add_sim_receiver(*a, "10.0.0.1/32".parse().unwrap(), src_rec.clone()).unwrap();
+        state.add_sim_receiver(*a, "10.0.0.2/32".parse().unwrap(), responder.clone()).unwrap();
+    }
+    let src_ip = Ipv4Addr::new(10, 0, 0, 1);
+    let dst_ip = Ipv4Addr::new(10, 0, 0, 2);
+    // keep the paths over which the simulator delivers a UDP datagram forwards and, reversed, backwards (some offered
+    // paths are refused by the simulated routers - C13/C01 findings - and say nothing about echo handling)
+    let n_offered = honest.len();
+    honest.retain(|(a, b, p)| {
+        let fwd = ScionUdpPacket::new(ScionSocketAddr::new(*a, ScionHostAddr::V4(src_ip), 1), ScionSocketAddr::new(*b, ScionHostAddr::V4(dst_ip), 2), DpPath::Standard(p.clone()), vec![1, 2, 3]).try_encode_to_vec();
+        let Ok(mut fwd) = fwd else { return false };
+        *responder.1.lock().unwrap() = 0;
+        src_rec.0.lock().unwrap().clear();
+        let ok = catch(|| {
+            rt.block_on(async {
+                {
+                    let (v, _) = ScionRawPacketView::try_from_mut_slice(&mut fwd).unwrap();
+                    state.dispatch_to_network_sim(*a, 0, ScionNetworkTime::now(), v);
+                }
+                // back over the reverse of the path as it arrived
+                let arrived = responder.2.lock().unwrap().clone();
+                if *responder.1.lock().unwrap() == 1 {
+                    if let Ok((av, _)) = ScionRawPacketView::try_from_slice(&arrived) {
+                        if let Ok(rp) = av.header().path().to_model().try_into_reversed() {
+                            if let Ok(mut back) = ScionUdpPacket::new(ScionSocketAddr::new(*b, ScionHostAddr::V4(dst_ip), 2), ScionSocketAddr::new(*a, ScionHostAddr::V4(src_ip), 1), rp, vec![4, 5, 6]).try_encode_to_vec() {
+                                let (v, _) = ScionRawPacketView::try_from_mut_slice(&mut back).unwrap();
+                                state.dispatch_to_network_sim(*b, 0, ScionNetworkTime::now(), v);
+                            }
+                        }
+                    }
+                }
+                for _ in 0..4 {
+                    tokio::task::yield_now().await;
+                }
+            })
+        });
+        let (f, bk) = (*responder.1.lock().unwrap(), src_rec.0.lock().unwrap().len());
+        rep.hit(&format!("echoresp probe: forward {f} backward {bk} panic {}", ok.is_err()));
+        ok.is_ok() && f == 1 && bk == 1
+    });
+    rep.hit_n("echoresp paths offered", n_offered as u64);
+    rep.hit_n("echoresp paths delivering UDP both ways", honest.len() as u64);
+    if honest.is_empty() {
+        return;
+    }
+    for round in 0..rounds {
+        let (src_ia, dst_ia, path) = &honest[rng.below(honest.len() as u64) as usize];
+        let src = ScionAddr::new(*src_ia, ScionHostAddr::V4(src_ip));
+        let dst = ScionAddr::new(*dst_ia, ScionHostAddr::V4(dst_ip));
+        let dp = DpPath::Standard(path.clone());
+        let (ident, seq) = (rng.next() as u16, rng.next() as u16);
+        let dn = *rng.pick(&[0usize, 1, 8, 56, 700]);
+        let data = rng.bytes(dn);
+        let echo = |dp: DpPath| -> Vec<u8> {
+            let msg: ScmpMessage = ScmpEchoRequest::new(ident, seq, data.clone()).into();
+            ScionScmpPacket::new(src, dst, dp, msg).try_encode_to_vec().unwrap()
+        };
+        let (label, bytes): (&str, Vec<u8>) = match if round < 8 { round as u64 % 4 } else { rng.below(8) } {
+            0 | 4 => ("echo-request", echo(dp)),
+            1 | 5 => {
+                let mut b = echo(dp);
+                let h = hdr_len(&b);
+                match rng.below(3) {
+                    0 => b[h + 2] ^= 0x40,
+                    1 => {
+                        let k = b.len() - 1;
+                        if k >= h + 8 { b[k] ^= 1 } else { b[h + 3] ^= 1 }
+                    }
+                    _ => {
+                        b[h + 2] = !b[h + 2];
+                        b[h + 3] = !b[h + 3];
+                    }
+                }
+                ("echo-request-bad-checksum", b)
+            }
+            2 => {
+                let k = gk(rng);
+                let n = rng.below(100) as usize;
+                ("scmp-error", ScionScmpPacket::new(src, dst, dp, k.msg(rng.bytes(n))).try_encode_to_vec().unwrap())
+            }
+            3 => {
+                let ty = *rng.pick(&[1u8, 3, 5, 6, 128, 130]);
+                let n = *rng.pick(&[0usize, 1, 3, 7]);
+                let mut body = rng.bytes(n);
+                if n > 0 {
+                    body[0] = ty;
+                }
+                ("scmp-malformed", ScionRawPacket::new(src, dst, dp, ProtocolNumber::Scmp, body).try_encode_to_vec().unwrap())
+            }
+            6 => {
+                let msg: ScmpMessage = ScmpTracerouteRequest::new(ident, seq).into();
+                ("traceroute-request", ScionScmpPacket::new(src, dst, dp, msg).try_encode_to_vec().unwrap())
+            }
+            _ => {
+                let msg: ScmpMessage = ScmpEchoReply::new(ident, seq, data.clone()).into();
+                ("echo-reply", ScionScmpPacket::new(src, dst, dp, msg).try_encode_to_vec().unwrap())
+            }
+        };
+        let class = classify_rx(&bytes);
+        src_rec.0.lock().unwrap().clear();
+        *responder.1.lock().unwrap() = 0;
+        let mut buf = bytes.clone();
+        let r = catch(|| {
+            rt.block_on(async {
+                {
+                    let (v, _) = ScionRawPacketView::try_from_mut_slice(&mut buf).unwrap();
+                    state.dispatch_to_network_sim(*src_ia, 0, ScionNetworkTime::now(), v);
+                }
+                // the responder sends its reply from a spawned task
+                for _ in 0..8 {
+                    tokio::task::yield_now().await;
+                }
+            })
+        });
+        let replies = src_rec.0.lock().unwrap().clone();
+        let case = json!({"stream": "echoresp", "packet": hex(&bytes), "src_as": src_ia.to_string(), "dst_as": dst_ia.to_string(), "gen": label, "class": class});
+        rep.case(&format!("echoresp|{}|{}", hex(&bytes[..bytes.len().min(200)]), bytes.len()), true);
+        rep.hit(&format!("echoresp {label} ({class}) reached the responder {}x -> {} replies", *responder.1.lock().unwrap(), replies.len()));
+        if r.is_err() {
+            rep.spec_fail("C14:panic", "PsEchoResponder / dispatch_to_network_sim panicked", case.clone());
+            continue;
+        }
+        let h = hdr_len(&bytes);
+        match class {
+            "echo-request" => {
+                if replies.len() != 1 {
+                    rep.spec_fail("C14:echo-not-exactly-one", &format!("pocketscion's echo responder: {} packets came back for one well-formed echo request over an honest path", replies.len()), case.clone());
+                }
+                for rp in &replies {
+                    let rh = hdr_len(rp);
+                    let ok = rp.len() >= rh + 8 && rp[4] == 202 && rp[rh] == 129 && rp[rh + 1] == 0 && rp[rh + 4..] == bytes[h + 4..]
+                        && rp[9] == ((bytes[9] & 15) << 4 | (bytes[9] >> 4)) && rp[12..20] == bytes[20..28] && rp[20..28] == bytes[12..20]
+                        && rp[28..32] == bytes[32..36] && rp[32..36] == bytes[28..32];
+                    if !ok {
+                        rep.spec_fail("C14:echo-reply-wrong", "pocketscion's echo responder: reply does not carry the same id/seq/data with swapped addresses", case.clone());
+                    }
+                    if !checksum_ok(rp) {
+                        rep.spec_fail("C14:checksum", "pocketscion's echo responder: reply checksum does not verify", case.clone());
+                    }
+                    // the model's reply message (echoHandle) for the same request
+                    let mo = lean.ask(&format!("recv echo 0 {} 0:-", hex(&set_path_empty(&bytes))));
+                    if lean.enabled {
+                        let want = mo.strip_prefix("scmp sent=").and_then(|x| x.split(' ').next()).and_then(unhex);
+                        let same = want.as_ref().map(|w| w[hdr_len(w)..] == rp[rh..]).unwrap_or(false);
+                        if !same {
+                            rep.disagree("echoresp", case.clone(), &format!("reply message {}", hex(&rp[rh..]).chars().take(120).collect::<String>()), &mo.chars().take(200).collect::<String>());
+                        }
+                    }
+                }
+            }
+            "echo-request-bad-checksum" => {
+                if !replies.is_empty() {
+                    rep.spec_fail("C14:echo-bad-checksum", "pocketscion's echo responder (PsEchoResponder) answered an echo request whose SCMP checksum does not verify", case.clone());
+                }
+            }
+            c => {
+                if !replies.is_empty() {
+                    let key = if c.starts_with("scmp-error") { "C14:reply-to-error" } else if c == "scmp-malformed" { "C14:reply-to-malformed" } else { "C14:unexpected-reply" };
+                    rep.spec_fail(key, &format!("pocketscion's echo responder path produced {} packets for a packet of class {c}", replies.len()), case.clone());
+                }
+            }
+        }
+    }
+}
+
+/// the same packet with an empty path (addresses and payload untouched): what the model needs to compute the echo
+/// reply *message*, which does not depend on the path
+fn set_path_empty(b: &[u8]) -> Vec<u8> {
+    let h = hdr_len(b);
+    let ae = addr_end(b);
+    let mut v = b[..ae].to_vec();
+    v[5] = (ae / 4) as u8;
+    v[8] = 0;
+    v.extend_from_slice(&b[h..]);
+    v
+}
+
 fn main() {
     let args = Args::parse();
     quiet_panics();
@@ -1323,6 +1545,7 @@ fn main() {
         recv_stream(&mut rng, &mut lean, &mut rep, &rt, args.scale(500, 12000), &corpus);
         sim_stream(&mut rng, &mut lean, &mut rep, args.scale(3000, 80000), &corpus);
         net_stream(&mut rng, &mut rep, args.scale(1500, 40000));
+        echoresp_stream(&mut rng, &mut lean, &mut rep, &rt, args.scale(400, 8000));
     }
     rep.write(&args.out);
     std::process::exit(if rep.ok() { 0 } else { 1 });
